@@ -22,6 +22,9 @@ ASSUMPTIONS = ["the region explored is the complement of the known findings list
                "batch boundaries, bounded operators across batch boundaries, since)"]
 
 
+TRUSTED_EXTRA = ["the mirror of the dense online operation classes (lean/Rtamt/Dense/AlgOn.lean) is hand-written: it is tied to rtamt/semantics/stl/dense_time/online/*.py and rtamt/semantics/arithmetic/dense_time/online/*.py by comparing every list every update() returns, not by a translator; the interpreter's name-keyed operator dictionary is a state tree in the mirror"]
+
+
 def has(f, pred):
     return any(pred(g) for g in F.subformulas(f))
 
@@ -176,6 +179,29 @@ def check_consistency(ctx, f, sig, cuts, qs):
 def gen_case(rng):
     g = D.DGen(rng, D.VARS[:2], D.DENSE_ON, max_bound=rng.choice([2, 4, 8]))
     f = g.formula(rng.choice([1, 1, 2, 3]))
+    if rng.random() < 0.35:
+        # a bounded operator over a bounded operator (the inner one returns the sample at its last time stamp again at the next
+        # update) under an operation with a second operand: the operand streams of that operation come in different rhythms
+        def tb():
+            a = rng.randint(0, 2)
+            return a, a + rng.randint(0, 4)
+        x = ("v", rng.choice(D.VARS[:2]))
+        inner = x if rng.random() < 0.6 else ("b", rng.choice(["ge", "le"]), x, ("c", rng.choice([0.0, 1.0, 2.0])))
+        a1, b1 = tb()
+        a2, b2 = tb()
+        nest = ("tb1", rng.choice(["once", "hist"]), a1, b1, ("tb1", rng.choice(["once", "hist"]), a2, b2, inner))
+        other = ("v", rng.choice(D.VARS[:2])) if rng.random() < 0.7 else g.formula(1)
+        op = rng.choice(["and", "or", "implies", "add", "sub", "ge", "le"])
+        f = ("b", op, nest, other) if rng.random() < 0.6 else ("b", op, other, nest)
+        vs = F.variables(f)
+        # samples on the grid the bounds live on (a sample exactly one window width after another one), runs and plateaus
+        sig = D.window_signals(rng, vs)
+        sig = {v: s_[:rng.randint(3, 8)] for v, s_ in sig.items()}
+        end = max(s_[-1][0] for s_ in sig.values())
+        for v in vs:
+            if sig[v][-1][0] < end:
+                sig[v] = sig[v] + [(end, rng.choice((-1.0, 0.0, 1.0, 2.0)))]
+        return f, sig
     vs = F.variables(f) or ["x"]
     sig = {v: D.gen_signal(rng, 0, nmax=rng.choice([2, 3, 4, 6])) for v in vs}
     end = max(s[-1][0] for s in sig.values())
@@ -236,6 +262,14 @@ def replay(ctx, obj):
         if isinstance(cuts, dict) else [Fraction(c) for c in cuts]
     (_, dom, end), = D.model_query([(f, sig, [])])
     qs = D.query_times(sig, f, [], dom, end)
+    if obj.get("kind") == "modular":
+        case = D.mod_case(obj)
+        case["monitor"] = "onc"
+        cuts = obj.get("cuts", [])
+        cuts = {v: ([int(c) for c in cs] if v.startswith("@") else [Fraction(c) for c in cs]) for v, cs in cuts.items()} \
+            if isinstance(cuts, dict) else [Fraction(c) for c in cuts]
+        v = check_modular_chunking(case, cuts)
+        return (v is None), (v.what if v else "modular and inlined specification agree on the replayed chunking")
     if obj.get("kind") == "consistency":
         v = check_consistency(Ctx(ctx.id, ctx.tier, ctx.seed), f, sig, cuts, qs)
         return (v is None), (v.what if v else "the chunked run agrees with the run fed in one update")
@@ -244,8 +278,72 @@ def replay(ctx, obj):
     return (v is None), (v.what if v else "online output agrees with the dense semantics on the replayed chunking")
 
 
+def modular_stream(ctx, rng, count):
+    """Specifications with sub-specifications (a name is visited once per reference in every update) under the chunkings: the
+    concatenated output of the modular monitor against that of the monitor of the inlined specification fed the same way."""
+    allow = D.DENSE_ON - {"since", "bsince"}
+    for case in D.modular_cases(ctx, rng, count, allow):
+        case["monitor"] = "onc"
+        if any(g[0] in ("t2", "tb2") or (g[0] in ("t1", "tb1") and g[1] in ("ev", "alw")) for nm, b in case["defs"] for g in F.subformulas(b)):
+            continue
+        sig = {v: D.gen_signal(rng, 0, nmax=rng.choice([3, 4, 6])) for v in case["vars"]}
+        end = max(s_[-1][0] for s_ in sig.values())
+        for v in sig:
+            if sig[v][-1][0] < end:
+                sig[v] = sig[v] + [(end, rng.choice((-1.0, 0.0, 1.0, 2.0)))]
+        case["sig"] = sig
+        vs = case["vars"]
+        for cuts in chunkings(rng, sig, 16)[:14]:
+            if isinstance(cuts, dict) and cuts.get("@@omit"):
+                continue
+            ctx.evaluations += 1
+            ctx.count("modular-chunking")
+            v = check_modular_chunking(case, cuts)
+            if v is None:
+                ctx.traces_validated += 1
+            else:
+                ctx.violations.append(v)
+                return
+
+
+def check_modular_chunking(case, cuts):
+    sig, vs = case["sig"], case["vars"]
+    nup, chunks = D.online_chunks(sig, cuts)
+
+    def feed(modular):
+        def go():
+            spec = D.dense_build(case, modular)
+            return [spec.update(*[[v, D.py_sig(chunks[v][i])] for v in vs]) for i in range(nup)]
+        return impl.guarded(go)
+    a, b = feed(True), feed(False)
+    rep = dict(D.mod_rep(case), kind="modular", cuts=cuts_txt(cuts), impl_modular=a, impl_inlined=b)
+    if b[0] != "ok":
+        return None           # the inlined form is judged by the main stream
+    if a[0] != "ok":
+        return Violation("dense online update() of the modular specification raised %r with cuts %s, the inlined one does not: %s"
+                         % (a[1:], rep["cuts"], rep["spec"]), rep, stream="on-c/modular")
+    fa = [(Fraction(p[0]), p[1]) for ch in a[1] for p in ch if p[0] != float("inf")]
+    fb = [(Fraction(p[0]), p[1]) for ch in b[1] for p in ch if p[0] != float("inf")]
+    if any(y[0] < x[0] for x, y in zip(fa, fa[1:])):
+        return Violation("concatenated output of the modular specification has decreasing time stamps (cuts %s): %s"
+                         % (rep["cuts"], rep["spec"]), rep, stream="on-c/modular")
+    if not fa or not fb:
+        if bool(fa) != bool(fb):
+            return Violation("modular and inlined specification differ in what they return (cuts %s): %s" % (rep["cuts"], rep["spec"]), rep,
+                             stream="on-c/modular")
+        return None
+    d = D.step_equal(fa, fb, max(fa[0][0], fb[0][0]), min(fa[-1][0], fb[-1][0]))
+    if d or fa[-1][0] != fb[-1][0]:
+        return Violation("modular and inlined specification fed with cuts %s differ at t=%s: %r vs %r: %s"
+                         % (rep["cuts"], d[0] if d else fa[-1][0], d[1] if d else fa[-1], d[2] if d else fb[-1], rep["spec"]), rep,
+                         stream="on-c/modular")
+    return None
+
+
 def run(ctx):
     explore(ctx, ctx.subrng("on-c"), ctx.budget(400, 3000))
+    if not ctx.violations:
+        modular_stream(ctx, ctx.subrng("on-c/modular"), ctx.budget(60, 500))
 
 
 def search(ctx):
